@@ -77,6 +77,27 @@ MUTANTS = {
                   '        # restrict parametric objects of this type in the subroutine\n        composite_types = params_obj_type.split("/")\n        composite_names = params_obj_name.split("/")\n        for composite_type, composite_name in zip(composite_types, composite_names):\n            state_params[composite_type] = composite_name\n        state_params["states_chain"] = composite_types[-1]\n\n        state_params["set_state"]')]),
     "p2 push: default push_mode af -> ff": (
         "push", [('state_params.get("push_mode", "af")', 'state_params.get("push_mode", "ff")')]),
+    "p3 push: set_state written from set_state instead of push_state": (
+        "push", [('state_params["set_state"] = state_params["push_state"]', 'state_params["set_state"] = state_params["set_state"]')]),
+    "o1 pop: default of the get half ra -> ri": (
+        "pop", [('state_params.get("pop_mode", "ra")', 'state_params.get("pop_mode", "ri")')]),
+    "o2 pop: the unset half reads unset_mode instead of pop_mode": (
+        "pop", [('state_params.get("pop_mode", "fa")', 'state_params.get("unset_mode", "fa")')]),
+    "o3 pop: unset_states called before get_states": (
+        "pop", [('        get_states(state_params, env)\n\n        state_params["unset_state"] = state_params["pop_state"]',
+                 '        unset_states(state_params, env)\n\n        state_params["unset_state"] = state_params["pop_state"]'),
+                ('state_params.get("pop_mode", "fa")\n        unset_states(state_params, env)',
+                 'state_params.get("pop_mode", "fa")\n        get_states(state_params, env)')]),
+    "o4 pop: ROOTS guard dropped": (
+        "pop", [('        if state in ROOTS:\n            # cannot be done with root states\n            continue\n\n        # restrict parametric objects of this type in the subroutine\n        composite_types = params_obj_type.split("/")\n        composite_names = params_obj_name.split("/")\n        for composite_type, composite_name in zip(composite_types, composite_names):\n            state_params[composite_type] = composite_name\n        state_params["states_chain"] = composite_types[-1]\n\n        state_params["get_state"]',
+                 '        # restrict parametric objects of this type in the subroutine\n        composite_types = params_obj_type.split("/")\n        composite_names = params_obj_name.split("/")\n        for composite_type, composite_name in zip(composite_types, composite_names):\n            state_params[composite_type] = composite_name\n        state_params["states_chain"] = composite_types[-1]\n\n        state_params["get_state"]')]),
+    "o5 pop: unset_state key not written": (
+        "pop", [('        state_params["unset_state"] = state_params["pop_state"]\n', '')]),
+    "o6 pop: the unset half is skipped (second call dropped)": (
+        "pop", [('state_params.get("pop_mode", "fa")\n        unset_states(state_params, env)\n', 'state_params.get("pop_mode", "fa")\n')]),
+    "o7 pop: states_chain restricted to the first type": (
+        "pop", [('        state_params["states_chain"] = composite_types[-1]\n\n        state_params["get_state"]',
+                 '        state_params["states_chain"] = composite_types[0]\n\n        state_params["get_state"]')]),
 }
 
 
